@@ -9,7 +9,9 @@ use std::sync::Arc;
 use std::time::Duration;
 
 use crate::cancel::Cancel;
-use crate::coroutine_impl::{co_cancel_data, run_coroutine, CoroutineImpl, EventSource};
+use crate::coroutine_impl::{
+    co_cancel_data, current_cancel_data, is_coroutine, run_coroutine, CoroutineImpl, EventSource,
+};
 use crate::scheduler::get_scheduler;
 use crate::sync::atomic_dur::AtomicDuration;
 use crate::sync::AtomicOption;
@@ -183,8 +185,24 @@ impl Drop for DropGuard<'_> {
 impl Drop for Park {
     fn drop(&mut self) {
         // wait the kernel finish
-        while self.wait_kernel.load(Ordering::Acquire) {
-            yield_now();
+        if self.wait_kernel.load(Ordering::Acquire) {
+            // a destructor must not raise the Cancel panic: the caller may already
+            // own the lock or permit it was waiting for and would never release it.
+            // (when we are unwinding already yield_now does not panic again)
+            let cancel = if is_coroutine() && !std::thread::panicking() {
+                Some(current_cancel_data())
+            } else {
+                None
+            };
+            if let Some(c) = cancel {
+                c.disable_cancel();
+            }
+            while self.wait_kernel.load(Ordering::Acquire) {
+                yield_now();
+            }
+            if let Some(c) = cancel {
+                c.enable_cancel();
+            }
         }
 
         self.set_timeout_handle(None);
